@@ -70,6 +70,12 @@ def opts_kwargs(o):
         kw["elev_range"] = [float(x) for x in o["elevrange"]]
     if "obsrange" in g:
         kw["obs_range"] = [mat.num(x) for x in o["obsrange"]]
+    if "T" in g:
+        import verif.aggregator
+        import verif.axis
+        kw["dim_agg_length"] = mat.num(o["T"][0])
+        kw["dim_agg_method"] = verif.aggregator.get(o["T"][1])
+        kw["dim_agg_axis"] = verif.axis.get(o["T"][2])
     return kw
 
 
@@ -310,6 +316,8 @@ def opts_argv(o):
             if name == "lx" and not vals:
                 continue
             argv += [flag, f(vals)]
+    if "T" in g:
+        argv += ["-T", mat.fmt(mat.num(o["T"][0])), "-Tagg", o["T"][1], "-Tx", o["T"][2]]
     return argv
 
 
